@@ -3,6 +3,7 @@ package core
 import (
 	"bytes"
 	"fmt"
+	"sort"
 	"sync/atomic"
 
 	"github.com/mk6i/mkdb/storage"
@@ -138,6 +139,132 @@ func (w *World) checkPageRead(st *storeState, off uint64, b []byte, n *storage.V
 	}
 }
 
+// ---- O-evict (C16/C15): nothing is lost when a page leaves the cache ----
+
+// checkEvict compares the node being evicted with the decode of the bytes the
+// data file holds at its offset (shadow file = every write that reached the
+// file). Independent of the dirty flag: whatever the cache believes, a page
+// that leaves it must be recoverable from the file as it is.
+func (w *World) checkEvict(l *storage.LRUCache, off uint64, n *storage.VerifNode) {
+	st := w.byCache[l]
+	if st == nil || st.exited {
+		return
+	}
+	w.count("oevict_checked")
+	sh := st.shadow.data
+	node := nodeShape(n.VerifView())
+	if int(off)+storage.VerifPageSize > len(sh) {
+		w.raise(w.Prop, "O-evict", fmt.Sprintf("page %d evicted but the data file ends at %d: its content exists nowhere", off, len(sh)),
+			map[string]string{"what": "evict-no-image", "node": node})
+		return
+	}
+	dec, err := storage.VerifDecodePage(sh[off : int(off)+storage.VerifPageSize])
+	if err != nil {
+		w.raise(w.Prop, "O-evict", fmt.Sprintf("page %d evicted but its image in the data file does not decode: %v", off, err),
+			map[string]string{"what": "evict-no-image", "node": node})
+		return
+	}
+	view := n.VerifView()
+	dec.Offset = view.Offset
+	if d := viewDiff(view, dec); d != "" {
+		w.raise(w.Prop, "O-evict", fmt.Sprintf("page %d evicted but %s differs from its image in the data file", off, d),
+			map[string]string{"what": "evict-differs", "field": fieldClass(d), "node": node})
+	}
+}
+
+type unsavedPage struct {
+	n  *storage.VerifNode
+	ev int64
+}
+
+// sameAsFile: does the data file (shadow) hold exactly this node at its offset?
+func sameAsFile(st *storeState, off uint64, n *storage.VerifNode) bool {
+	sh := st.shadow.data
+	if int(off)+storage.VerifPageSize > len(sh) {
+		return false
+	}
+	dec, err := storage.VerifDecodePage(sh[off : int(off)+storage.VerifPageSize])
+	if err != nil {
+		return false
+	}
+	view := n.VerifView()
+	dec.Offset = view.Offset
+	return viewDiff(view, dec) == ""
+}
+
+// evictWindow runs at every event of a store's cache. It checks evictions
+// against the file (checkEvict), keeps the set of pages that were stored in
+// the cache clean although the file does not hold their content, and notes a
+// pressure hint when such a page is still clean at the next moment the cache
+// inserts a non-resident key: with every other slot dirty that insertion would
+// evict it. The hint is not a violation; RunC16Diff re-runs the plan with the
+// cache-pressure fault placed at that event, and only an eviction that really
+// drops the page (O-evict) is reported.
+func (w *World) evictWindow(l *storage.LRUCache, st *storeState, kind int, k uint64, n *storage.VerifNode) {
+	w.lruEv++
+	if kind == storage.VerifLRUEvict && n != nil {
+		w.checkEvict(l, k, n)
+	}
+	us := w.unsaved[l]
+	switch kind {
+	case storage.VerifLRUEvict, storage.VerifLRUSetNew, storage.VerifLRURefuse:
+		offs := make([]uint64, 0, len(us))
+		for off := range us {
+			offs = append(offs, off)
+		}
+		sort.Slice(offs, func(i, j int) bool { return offs[i] < offs[j] })
+		for _, off := range offs {
+			u := us[off]
+			if off == k && kind != storage.VerifLRUEvict {
+				continue
+			}
+			if u.n.VerifIsDirty() || sameAsFile(st, off, u.n) {
+				delete(us, off)
+				continue
+			}
+			if kind == storage.VerifLRUEvict && off == k {
+				delete(us, off)
+				continue
+			}
+			w.count("oevict_exposed_window")
+			if w.isMain && len(w.PressureHints) < 4 {
+				dup := false
+				for _, h := range w.PressureHints {
+					dup = dup || h == u.ev
+				}
+				if !dup {
+					w.PressureHints = append(w.PressureHints, u.ev)
+				}
+			}
+			delete(us, off)
+		}
+	}
+	if (kind == storage.VerifLRUSetNew || kind == storage.VerifLRUSetHit) && n != nil {
+		if !n.VerifIsDirty() && !sameAsFile(st, k, n) {
+			if us == nil {
+				us = map[uint64]unsavedPage{}
+				if w.unsaved == nil {
+					w.unsaved = map[*storage.LRUCache]map[uint64]unsavedPage{}
+				}
+				w.unsaved[l] = us
+			}
+			us[k] = unsavedPage{n: n, ev: w.lruEv}
+			w.count("oevict_set_clean_unsaved")
+		}
+		if w.isMain && w.Knobs.PressureAt != 0 && w.lruEv == w.Knobs.PressureAt {
+			w.inPressure = true
+			for _, e := range l.VerifEntries() {
+				if e.Key != k && !e.Node.VerifIsDirty() {
+					e.Node.VerifSetDirty(true)
+					w.count("pressure_pages_marked_dirty")
+				}
+			}
+			w.inPressure = false
+			w.count("pressure_applied")
+		}
+	}
+}
+
 // ---- O-lru (C15): shadow model of the page cache ----
 
 type lruModel struct {
@@ -147,7 +274,9 @@ type lruModel struct {
 	ops  int
 }
 
-func newLRUModel(cap int) *lruModel { return &lruModel{cap: cap, vals: map[uint64]*storage.VerifNode{}} }
+func newLRUModel(cap int) *lruModel {
+	return &lruModel{cap: cap, vals: map[uint64]*storage.VerifNode{}}
+}
 
 func (m *lruModel) idx(k uint64) int {
 	for i, x := range m.keys {
@@ -209,6 +338,11 @@ func (w *World) hookLRU(l *storage.LRUCache, kind int, key any, n *storage.Verif
 		w.count("lru_miss")
 	case storage.VerifLRUGetHit:
 		w.count("lru_hit")
+	}
+	if w.mon.Evict {
+		if st := w.byCache[l]; st != nil && !st.exited {
+			w.evictWindow(l, st, kind, k, n)
+		}
 	}
 	m := w.lruShadow[l]
 	if m == nil {
